@@ -125,4 +125,42 @@ def decoded : Outbound → Option (Option Json)
   | .raw s => some (dec s)
   | .unserialisable => none
 
+/-! ## Entry guards (`StdioClient.__init__`, `_ensure_streams_initialized`, `StdioTransport`)
+
+    __init__:  if not server.command: raise ValueError ; if not isinstance(server.args, (list, tuple)): raise ValueError
+    get_streams / send_json / _route_message / _stdin_writer:  if not self._streams_initialized: raise RuntimeError
+    StdioTransport.get_streams: if not self._client: raise RuntimeError
+    StdioTransport.__aexit__ / set_protocol_version without a client: nothing happens
+
+`_streams_initialized` is set by the first `__aenter__` and never cleared. -/
+
+inductive GuardErr where
+  | valueError
+  | runtimeError
+  deriving DecidableEq, Repr
+
+/-- `StdioClient(server)` -/
+def ctorCheck (commandNonEmpty argsIsSequence : Bool) : Except GuardErr Unit :=
+  if !commandNonEmpty then .error .valueError
+  else if !argsIsSequence then .error .valueError
+  else .ok ()
+
+/-- what has been done with the object so far -/
+inductive LifeOp where
+  | enter | exit
+  deriving DecidableEq, Repr
+
+/-- `_streams_initialized` after a history of enter / exit -/
+def initialized (h : List LifeOp) : Bool := h.contains .enter
+
+/-- `client.get_streams()` / `send_json` / … after history `h` -/
+def useStreams (h : List LifeOp) : Except GuardErr Unit :=
+  if initialized h then .ok () else .error .runtimeError
+
+/-- `StdioTransport`: `_client` is set by `__aenter__` and cleared by `__aexit__` -/
+def transportHasClient (h : List LifeOp) : Bool := h.getLast? == some .enter
+
+def transportGetStreams (h : List LifeOp) : Except GuardErr Unit :=
+  if transportHasClient h then .ok () else .error .runtimeError
+
 end Verif.Model.StdioOut
